@@ -42,6 +42,7 @@ func checkC02(ctx *Ctx, r *Report) {
 	c02JavaSerializerConditions(ctx, r)
 	c02GoUnfoldLeafPointer(ctx, r)
 	c02GoFieldNamesNotMethods(ctx, r)
+	c09GoEnvelopeConstants(ctx, r)
 	c02RuntimeGuard(ctx, r)
 	c02SortedSearch(ctx, r)
 	c02SortedSearchSelfTest(ctx, r)
